@@ -82,7 +82,7 @@ def run_tlc(module, cfg, wd, env=None, workers=1, timeout=900, simulate=None, de
     wd.mkdir(parents=True, exist_ok=True)
     cfgp = wd / f"{module}.cfg"
     cfgp.write_text(cfg)
-    cmd = ["java", "-XX:+UseParallelGC", f"-Xmx{heap}", "-Xss16m",
+    cmd = ["java", "-XX:+UseParallelGC", f"-Xmx{heap}", "-Xss256m",
            "-cp", TLA_CP, "tlc2.TLC",
            "-config", str(cfgp), "-workers", str(workers),
            "-metadir", str(wd / "meta"), "-noGenerateSpecTE", "-nowarning"]
